@@ -70,6 +70,14 @@ def drop_unused_definitions(assumptions, goal):
 def prove(assumptions, goal, timeout_ms=None, want_model=True, second_opinion=True, retries=True):
     """Return dict(status=discharged|refuted|undecided, backend, time_s, model, reason)."""
     t0 = time.time()
+    dl = os.environ.get("PYVC_DEADLINE")
+    if dl:
+        left = float(dl) - t0
+        if left <= 1.0:
+            return dict(status="undecided", backend="none", time_s=0.0, reason="wall-clock budget of the deductive tier exhausted")
+        timeout_ms = int(min(timeout_ms or Z3_TIMEOUT_MS, max(1000.0, left * 1000)))
+        if left < 30:
+            retries = second_opinion = False
     assumptions = drop_unused_definitions(list(assumptions), goal)
     timeout_ms = timeout_ms or Z3_TIMEOUT_MS
     # fast path: value propagation + equation solving + polynomial normal form often closes (in)equational VCs
